@@ -79,8 +79,9 @@ PROPS = {
     },
     "C05": {
         "engines": [{"name": "iso", "quick": 20000, "thorough": 600000, "shards": 8},
-                    {"name": "auditiso", "quick": 2500, "thorough": 60000, "shards": 8}],
-        "nontrivial": lambda l, v: (" => w=1" in l) or ("; m=-" not in l and "CONFIGERR" not in l and " => w=" not in l),
+                    {"name": "auditiso", "quick": 2500, "thorough": 60000, "shards": 8},
+                    {"name": "reader", "quick": 3000, "thorough": 100000, "shards": 8}],
+        "nontrivial": lambda l, v: (" => w=1" in l) or l.startswith("reader ") or ("; m=-" not in l and "CONFIGERR" not in l and " => w=" not in l),
         "rule": _ENG_RULE + "iso: a predecessor transaction (own request with extra argument names, own call sequence, "
                 "possibly without ProcessLogging; it may match, be interrupted in any phase, switch the engine, remove rules/"
                 "targets by ctl, leave skip/skipAfter/allow pending) runs twice on the WAF and is closed; then the probe runs "
@@ -89,11 +90,13 @@ PROPS = {
                 "audit log (Native format); a predecessor triggers a rule (only it sends the trigger argument) that changes the audit "
                 "engine / removes or adds audit-log parts by ctl, runs twice and is closed; then the probe; only the bytes the probe adds "
                 "to the log are observed (record written?, section letters) and compared with the model's answer for the probe on a "
-                "fresh transaction.",
+                "fresh transaction. reader: a predecessor buffers a body (in memory, or spilled to the temporary file past the in-memory "
+                "limit), hands out a body reader (request or response side), reads k bytes, is closed; the probe on the same WAF buffers its own body; "
+                "then the stale reader is read to the end: it must yield nothing, and the probe's reader exactly the probe's body (6 rounds per case).",
         "modelled": _ENG_MODELLED + " Recycling: newTransaction's assignments and Close's variables.reset() over the modelled fields "
                     "(lean/Coraza/Model/Recycle.lean). Body buffers/readers and audit overrides are not in this model (C10/C19/C20).",
         "assumptions": _ENG_ASSUME + ["sync.Pool returns either a previously closed object or a new one"],
-        "open_statements": ["C05_readers_dead (a reader of a closed transaction yields nothing) is not yet stated; double Close is out of scope of the statement"],
+        "open_statements": ["double Close is out of scope of the statement"],
     },
     "C13": {
         "engines": [{"name": "memo", "quick": 3000, "thorough": 120000, "shards": 8,
